@@ -401,6 +401,7 @@ def run(P, R, tier):
     progkeep_rule(P, R)
     linestore_rule(P, R)
     powargs_rule(P, R)
+    dimsize_rule(P, R)
     onrecord_rule(P, R)
     R.undecided += ["(e) arithmetic and string results for all programs", "(f) malformed programs produce a BASIC error, never a wrong value or a hang"]
     ens = [e for e in P.enums.values() if e["q"].endswith("BASIC_TOKEN")]
@@ -1223,3 +1224,41 @@ def powargs_rule(P, R):
         else:
             R.violation(RULE, inst, "pow(%s, %s): the base must come from the left operand `%s` and the exponent from the right operand `%s`"
                         % (T.text(c[4][0])[:30], T.text(c[4][1])[:30], left, right), file=f["file"], line=c[1], function=f["q"])
+
+
+def dimsize_rule(P, R):
+    """"never a crash": DIM multiplies the dimensions given by the program into the number of elements it allocates.  A product that wraps
+    around allocates a small block for a large array, and the first store writes outside it.  In cmddim every `size *= dimension` must be
+    preceded, in the same block, by a test that bounds the running product by (a limit) / dimension - the overflow test that does not
+    itself overflow - whose failing branch raises the BASIC error."""
+    RULE = "C17.dimsize"
+    R.rule(RULE, "cmddim: the running product of the dimensions is bounded by limit / dimension before each multiplication", minimum=1)
+    f = P.one("PBasic::cmddim")
+    n = 0
+    for blk in T.walk(f["body"]):
+        if blk[0] != "Compound":
+            continue
+        for k, st in enumerate(blk[2]):
+            if not (T.is_node(st) and st[0] == "Bin" and st[2] == "*=" and T.is_node(T.strip_casts(st[3])) and T.strip_casts(st[3])[0] == "Ref"):
+                continue
+            prod, dim = T.strip_casts(st[3])[3], T.strip_casts(st[4])
+            if not (T.is_node(dim) and dim[0] == "Ref"):
+                continue
+            n += 1
+            inst = "%s*=%s@%d" % (prod, dim[3], st[1] - f["line"])
+            ok = False
+            for pv in blk[2][:k]:
+                if T.is_node(pv) and pv[0] == "If":
+                    c = T.strip_casts(pv[2])
+                    if T.is_node(c) and c[0] == "Bin" and c[2] in (">", ">=") and T.is_node(T.strip_casts(c[3])) and T.strip_casts(c[3])[0] == "Ref" \
+                            and T.strip_casts(c[3])[3] == prod and any(y[0] == "Bin" and y[2] == "/" and T.is_node(T.strip_casts(y[4])) and T.strip_casts(y[4])[0] == "Ref"
+                                                                         and T.strip_casts(y[4])[3] == dim[3] for y in T.walk(c[4])) \
+                            and any(T.callee_name(x) in ("badsubscr", "errormsg", "snerr", "tmerr") for x in T.calls(pv[3])):
+                        ok = True
+            if ok:
+                R.ok(RULE, inst, "bounded by limit / %s before the multiplication" % dim[3])
+            else:
+                R.violation(RULE, inst, "cmddim multiplies the running element count `%s` by the dimension `%s` without an overflow test: DIM a(65535,65535,65535,65535) wraps to 0 "
+                            "elements, the first store writes outside the block" % (prod, dim[3]), file=f["file"], line=st[1], function=f["q"])
+    if n < 1:
+        R.anchor_missing(RULE, "cmddim: the size product was not found")
